@@ -56,6 +56,9 @@ def endings():
     E.append(('stream-sync-empty', dict(kind='stream', down=0, pub='sync', ending='complete')))
     E.append(('stream-sync-cancel1', dict(kind='stream', down=3, pub='sync', cancel_after=1, credit='one', ending='flag')))
     E.append(('channel-sync-max', dict(kind='channel', down=3, up=3, pub='sync', ending='flag', up_ending='flag', credit='max')))
+    E.append(('stream-gen-cancel-in-on_next', dict(kind='stream', down=3, pub='gen', cancel_after=101, credit='max', ending='flag')))
+    E.append(('stream-gen-cancel-in-last-on_next', dict(kind='stream', down=2, pub='gen', cancel_after=102, credit='max', ending='flag')))
+    E.append(('channel-cancel-in-on_next', dict(kind='channel', down=3, up=-1, pub='gen', cancel_after=101, credit='max', ending='flag')))
     # the rest of the credit granted from inside on_subscribe
     E.append(('stream-gen-credit-in-on_subscribe', dict(kind='stream', down=3, pub='gen', credit='onsub', ending='flag')))
     E.append(('stream-manual-credit-in-on_subscribe', dict(kind='stream', down=2, pub='manual', credit='onsub')))
